@@ -339,6 +339,25 @@ def ResidentT (r : Rule) (v : Val) : LRU → List Req → Prop
   | _, [] => True
   | tm, q :: qs => (throttleCheck r tm q.t q.v q.b).1.find v ≠ none ∧ ResidentT r v (throttleCheck r tm q.t q.v q.b).1 qs
 
+/-- `v` is not evicted during the history (if it is in the cache before a step it is there after it):
+    the history stays inside one residency episode of `v` -/
+def NotEvictedR (r : Rule) (v : Val) : LRU → LRU → List Req → Prop
+  | _, _, [] => True
+  | tm, tk, q :: qs =>
+    (tm.find v ≠ none → (rejectCheck r tm tk q.t q.v q.b).1.find v ≠ none) ∧
+      NotEvictedR r v (rejectCheck r tm tk q.t q.v q.b).1 (rejectCheck r tm tk q.t q.v q.b).2.1 qs
+
+def NotEvictedT (r : Rule) (v : Val) : LRU → List Req → Prop
+  | _, [] => True
+  | tm, q :: qs =>
+    (tm.find v ≠ none → (throttleCheck r tm q.t q.v q.b).1.find v ≠ none) ∧
+      NotEvictedT r v (throttleCheck r tm q.t q.v q.b).1 qs
+
+/-- the requests / decisions that concern value `v` -/
+def reqsOf (v : Val) (qs : List Req) : List Req := qs.filter fun q => decide (q.v = v)
+
+def forVal (v : Val) (l : List (Req × Res)) : List (Req × Res) := l.filter fun p => decide (p.1.v = v)
+
 /-- tokens admitted by a decision list -/
 def admitted : List (Req × Res) → Int
   | [] => 0
